@@ -258,6 +258,8 @@ struct Ctx {
 	// shrinking it holds the minimal counterexample
 	void note_fail(const std::string &case_text, const std::string &msg) {
 		fail.have = true; fail.case_text = case_text; fail.msg = msg;
+		// a hang costs its whole CPU budget on every shrink attempt: spend few attempts on it
+		if (msg.find("did not return within") != std::string::npos || msg.find("did not finish") != std::string::npos || msg.find("TIMEOUT") != std::string::npos) shrink_budget = std::min<uint64_t>(shrink_budget, shrink_used + 12);
 		if (!fail_file.empty()) {
 			std::ofstream f(fail_file, std::ios::trunc);
 			f << "{\"case\": \"" << jesc(case_text) << "\",\n \"message\": \"" << jesc(msg) << "\",\n \"seed\": \"" << seed << "\", \"worker\": \"" << worker << "\"}\n";
